@@ -46,6 +46,29 @@ PAYLOADS = ["'", "''", "o'x", "' OR 1=1 --", "'; DROP TABLE canary; --", "x' OR 
             "é'ß", "中'文", "😀'", "", " ", "null", "NULL'", "a'" * 200, "x" * 260 + "' OR 1=1 --",
             "'" + "y" * 1000, "%" * 300 + "'", "{1}", "{2}", "{0}{1}{2}", "{}", "{1}' --", "%(1)s",
             "%(arg)s", "\\1", "\\g<1>", "$1", "$2", "{args_sql[1]}", "{arg_sql}", ":1", "@p1", "?1"]
+
+
+def source_placeholders():
+    """Placeholder spellings harvested at run time from the translators' own source
+    ({name}, {0}, %(name)s, %s, :name, $1 ...): a template that is filled in several steps
+    re-scans what it already inserted, so a literal spelling one of ITS placeholders is the
+    input that matters - whatever the names are in the tree under test."""
+    import glob
+    import os
+    import re as _re
+    import odata_query
+    root = os.path.dirname(odata_query.__file__)
+    found = set()
+    for f in glob.glob(os.path.join(root, "sql", "*.py")) + glob.glob(os.path.join(root, "*.py")):
+        try:
+            src = open(f, encoding="utf-8").read()
+        except OSError:
+            continue
+        found.update(_re.findall(r"\{[A-Za-z_][\w\[\]\.]{0,30}\}", src))
+        found.update(_re.findall(r"%\([A-Za-z_]\w{0,30}\)s", src))
+    return sorted(found)[:60]
+
+
 ALPHA = "'\"%_\\-;/* \nx\x00’ʼ()|="
 
 SFUNCS1 = ["tolower", "toupper", "trim", "length"]
@@ -106,6 +129,23 @@ def templates():
     out.append(("concat-0", ("cmp", "eq", T.call("concat", S(), u), s), False))
     out.append(("concat-1", ("cmp", "eq", T.call("concat", u, S()), s), False))
     out.append(("concat-nested", ("cmp", "eq", T.call("concat", T.call("concat", u, S()), T.S("z")), s), False))
+    # the hole next to a sibling argument that carries quotes and SQL of its own: when one
+    # argument's rendering is pasted into another's (multi-step template filling), the
+    # sibling's text leaves its literal
+    host = T.S("', s) >= 0 OR 1=1 OR INSTR('")
+    host2 = T.S("q' OR 'a'='a")
+    for hname, h in (("host", host), ("host2", host2)):
+        out.append(("indexof-hole-%s" % hname, ("cmp", "ge", T.call("indexof", S(), h), T.I(0)), False))
+        out.append(("indexof-%s-hole" % hname, ("cmp", "ge", T.call("indexof", h, S()), T.I(0)), False))
+        out.append(("concat-hole-%s" % hname, ("cmp", "eq", T.call("concat", S(), h), s), False))
+        out.append(("concat-%s-hole" % hname, ("cmp", "eq", T.call("concat", h, S()), s), False))
+        out.append(("substring-hole-len-%s" % hname,
+                    ("cmp", "eq", T.call("substring", S(), T.call("length", h)), u), False))
+        out.append(("substring3-hole-idx-%s" % hname,
+                    ("cmp", "eq", T.call("substring", S(), T.I(1), T.call("indexof", h, T.S("x"))), u), False))
+        out.append(("cmp-hole-and-%s" % hname, ("bool", "and", ("cmp", "eq", s, S()), ("cmp", "ne", u, h)), False))
+        for f in ("contains", "startswith", "endswith"):
+            out.append(("%s-hole-%s" % (f, hname), T.call(f, S(), h), False))
     for f in SFUNCS1:
         rhs = T.I(3) if f == "length" else u
         out.append((f + "-0", ("cmp", "eq", T.call(f, S()), rhs), False))
@@ -307,8 +347,10 @@ def run(ctx):
     tm = templates()
     rng = ctx.rng("c07")
     idx = 0
+    harvested = source_placeholders()
+    ctx.note_max("placeholders_harvested_from_source", len(harvested))
     for tname, tmpl, like_pos in tm:
-        for payload in PAYLOADS:
+        for payload in PAYLOADS + harvested + [h + "'" for h in harvested[:20]]:
             for dialect in DIALECTS:
                 for alias in (None, "tb"):
                     idx += 1
